@@ -6,6 +6,8 @@ __all__ = ['Math']
 
 
 class Math(span_token.SpanToken):
-    pattern = re.compile(r'(\${1,2})([^$]+?)\1')
+    # a dollar sign with a backslash in front of it neither opens nor closes math
+    # (in the LaTeX output '\$' is a dollar sign, so the region would never end)
+    pattern = re.compile(r'(?<!\\)(\${1,2})([^$]+?)(?<!\\)\1')
     parse_inner = False
     parse_group = 0
